@@ -43,7 +43,9 @@ T == << I(183, 0, 0, 0, 0),        \*  1 mov64 r0, 0
         I(LDDW, 10, 0, 0, 7),      \* 25 lddw r10
         I(183, 0, 11, 0, 0),       \* 26 mov64 r0, 0 with src field 11
         I(255, 0, 0, 0, 0),        \* 27 unknown opcode
-        I(LDDW, 11, 0, 0, 7) >>    \* 28 lddw r11 (no such register; the second slot's register byte is 0)
+        I(LDDW, 11, 0, 0, 7),      \* 28 lddw r11 (no such register; the second slot's register byte is 0)
+        I(165, 0, 0, 1, 0),        \* 29 jlt r0, 0, +1   (the "less than" jumps sit after call / exit in the opcode table)
+        I(221, 0, 1, -2, 0) >>     \* 30 jsle r0, r1, -2
 
 Core == {1, 2, 3, 4, 5, 7, 8, 10, 11, 12, 13, 14, 15, 16, 21, 25}
 Idx == IF Alphabet = "full" THEN 1..Len(T) ELSE Core
